@@ -133,6 +133,13 @@ class Repo:
             for mi in self.modules.values():
                 mi.tree = normalize(mi.tree)
             trees = [mi.tree for mi in self.modules.values()]
+        from .aliases import expand_aliases
+
+        self.alias_log: List[str] = []
+        if expand_aliases(trees, self.alias_log):
+            for mi in self.modules.values():
+                mi.tree = normalize(mi.tree)
+            trees = [mi.tree for mi in self.modules.values()]
         canonical_calls(trees)
         for mi in self.modules.values():
             self._index(mi)
